@@ -20,6 +20,7 @@ var SeqMode bool
 
 type selfDeadlock struct{}
 
+//go:norace
 func (selfDeadlock) Error() string {
 	return "vsync: lock of a mutex that is already held (the operation would never return)"
 }
@@ -32,6 +33,7 @@ type Mutex struct {
 	st vsched.MutexState
 }
 
+//go:norace
 func (m *Mutex) Lock() {
 	if vsched.Active() {
 		vsched.Lock(&m.st, false)
@@ -44,11 +46,13 @@ func (m *Mutex) Lock() {
 	}
 }
 
+//go:norace
 func (m *Mutex) Unlock() {
 	m.st.Held = false
 	m.mu.Unlock()
 }
 
+//go:norace
 func (m *Mutex) TryLock() bool {
 	if vsched.Active() {
 		vsched.YieldPC(uintptr(unsafe.Pointer(&m.st)))
@@ -65,6 +69,7 @@ type RWMutex struct {
 	st vsched.MutexState
 }
 
+//go:norace
 func (m *RWMutex) Lock() {
 	if vsched.Active() {
 		vsched.Lock(&m.st, false)
@@ -74,7 +79,11 @@ func (m *RWMutex) Lock() {
 		m.st.Held = true
 	}
 }
+
+//go:norace
 func (m *RWMutex) Unlock() { m.st.Held = false; m.mu.Unlock() }
+
+//go:norace
 func (m *RWMutex) RLock() {
 	if vsched.Active() {
 		vsched.Lock(&m.st, true)
@@ -84,7 +93,11 @@ func (m *RWMutex) RLock() {
 		m.st.Readers++
 	}
 }
-func (m *RWMutex) RUnlock()        { m.st.Readers--; m.mu.RUnlock() }
+
+//go:norace
+func (m *RWMutex) RUnlock() { m.st.Readers--; m.mu.RUnlock() }
+
+//go:norace
 func (m *RWMutex) RLocker() Locker { return m.mu.RLocker() }
 
 type Once struct {
@@ -92,15 +105,19 @@ type Once struct {
 	st   vsched.OnceState
 }
 
+//go:norace
 func (o *Once) Do(f func()) {
 	if !vsched.Active() {
 		o.once.Do(f)
 		return
 	}
 	vsched.OnceEnter(&o.st)
-	defer func() { o.st.Running = false }()
+	defer o.leave()
 	o.once.Do(f)
 }
+
+//go:norace
+func (o *Once) leave() { o.st.Running = false }
 
 // Map is sync.Map with a scheduling point before every operation and a
 // deterministic Range order.
@@ -108,27 +125,44 @@ type Map struct {
 	m sync.Map
 }
 
+//go:norace
 func (m *Map) pt() {
 	if vsched.Active() {
 		vsched.YieldPC(uintptr(unsafe.Pointer(m)))
 	}
 }
 
-func (m *Map) Load(key any) (any, bool)          { m.pt(); return m.m.Load(key) }
-func (m *Map) Store(key, value any)              { m.pt(); m.m.Store(key, value) }
-func (m *Map) Delete(key any)                    { m.pt(); m.m.Delete(key) }
+//go:norace
+func (m *Map) Load(key any) (any, bool) { m.pt(); return m.m.Load(key) }
+
+//go:norace
+func (m *Map) Store(key, value any) { m.pt(); m.m.Store(key, value) }
+
+//go:norace
+func (m *Map) Delete(key any) { m.pt(); m.m.Delete(key) }
+
+//go:norace
 func (m *Map) LoadAndDelete(key any) (any, bool) { m.pt(); return m.m.LoadAndDelete(key) }
+
+//go:norace
 func (m *Map) LoadOrStore(key, value any) (any, bool) {
 	m.pt()
 	return m.m.LoadOrStore(key, value)
 }
+
+//go:norace
 func (m *Map) Swap(key, value any) (any, bool) { m.pt(); return m.m.Swap(key, value) }
+
+//go:norace
 func (m *Map) CompareAndSwap(key, old, new any) bool {
 	m.pt()
 	return m.m.CompareAndSwap(key, old, new)
 }
+
+//go:norace
 func (m *Map) CompareAndDelete(key, old any) bool { m.pt(); return m.m.CompareAndDelete(key, old) }
 
+//go:norace
 func (m *Map) Range(f func(key, value any) bool) {
 	m.pt()
 	var keys []any
@@ -150,8 +184,13 @@ type WaitGroup struct {
 	n  int
 }
 
+//go:norace
 func (w *WaitGroup) Add(d int) { w.n += d; w.wg.Add(d) }
-func (w *WaitGroup) Done()     { w.n--; w.wg.Done() }
+
+//go:norace
+func (w *WaitGroup) Done() { w.n--; w.wg.Done() }
+
+//go:norace
 func (w *WaitGroup) Wait() {
 	if vsched.Active() {
 		vsched.WaitFor("WaitGroup.Wait", uintptr(unsafe.Pointer(w)), func() bool { return w.n <= 0 })
